@@ -30,6 +30,12 @@ const c03HandDoc = `{"openapi":"3.0.3","info":{"title":"t","version":"1"},"paths
  "/enumb":{"post":{"operationId":"enumb","requestBody":{"required":true,"content":{"application/json":{"schema":{"type":"integer","enum":[1,5,10],"maximum":5}}}},"responses":{"200":{"description":"ok"}}}},
  "/sib":{"post":{"operationId":"sib","requestBody":{"required":true,"content":{"application/json":{"schema":{"allOf":[{"type":"string"},{"maxLength":5}],"minLength":3}}}},"responses":{"200":{"description":"ok"}}}},
  "/f32":{"post":{"operationId":"f32","requestBody":{"required":true,"content":{"application/json":{"schema":{"type":"number","format":"float","maximum":0.1}}}},"responses":{"200":{"description":"ok"}}}},
+ "/minit":{"post":{"operationId":"minit","requestBody":{"required":true,"content":{"application/json":{"schema":{"allOf":[{"type":"array","items":{"type":"integer"},"minItems":1,"maxItems":9},{"type":"array","items":{"type":"integer"},"minItems":3,"maxItems":4}]}}}},"responses":{"200":{"description":"ok"}}}},
+ "/len2":{"post":{"operationId":"len2","requestBody":{"required":true,"content":{"application/json":{"schema":{"allOf":[{"type":"string","minLength":2,"maxLength":10},{"type":"string","minLength":4,"maxLength":6}]}}}},"responses":{"200":{"description":"ok"}}}},
+ "/props2":{"post":{"operationId":"props2","requestBody":{"required":true,"content":{"application/json":{"schema":{"allOf":[{"type":"object","additionalProperties":{"type":"integer"},"minProperties":1,"maxProperties":5},{"type":"object","additionalProperties":{"type":"integer"},"minProperties":2,"maxProperties":3}]}}}},"responses":{"200":{"description":"ok"}}}},
+ "/maxp":{"post":{"operationId":"maxp","requestBody":{"required":true,"content":{"application/json":{"schema":{"type":"object","properties":{"a":{"type":"integer"}},"maxProperties":2}}}},"responses":{"200":{"description":"ok"}}}},
+ "/maxp1":{"post":{"operationId":"maxp1","requestBody":{"required":true,"content":{"application/json":{"schema":{"type":"object","required":["a"],"properties":{"a":{"type":"integer"},"b":{"type":"integer"}},"minProperties":2,"maxProperties":3}}}},"responses":{"200":{"description":"ok"}}}},
+ "/emoji":{"post":{"operationId":"emoji","requestBody":{"required":true,"content":{"application/json":{"schema":{"type":"object","properties":{"lo":{"type":"string","minLength":4},"hi":{"type":"string","maxLength":2}}}}}},"responses":{"200":{"description":"ok"}}}},
  "/both":{"post":{"operationId":"both","requestBody":{"required":true,"content":{"application/json":{"schema":{"oneOf":[{"$ref":"#/components/schemas/Cat"},{"$ref":"#/components/schemas/Dog"}]}}}},"responses":{"200":{"description":"ok"}}}},
  "/zero":{"post":{"operationId":"zero","requestBody":{"required":true,"content":{"application/json":{"schema":{"type":"object","properties":{"s":{"type":"string","maxLength":0},"a":{"type":"array","items":{"type":"integer"},"maxItems":0},"m":{"type":"object","additionalProperties":{"type":"integer"},"maxProperties":0}}}}}},"responses":{"200":{"description":"ok"}}}}
 },"components":{"schemas":{
@@ -57,6 +63,12 @@ var c03HandCases = []struct {
 	{"enumb", `1`, true, ""}, {"enumb", `5`, true, ""}, {"enumb", `2`, false, ""}, {"enumb", `10`, false, "K37"},
 	{"sib", `"abc"`, true, ""}, {"sib", `"abcde"`, true, ""}, {"sib", `"abcdef"`, false, ""}, {"sib", `"ab"`, false, "K38"},
 	{"f32", `0.05`, true, ""}, {"f32", `0.2`, false, ""}, {"f32", `0.1`, true, "K39"},
+	{"minit", `[1,2,3]`, true, ""}, {"minit", `[1,2,3,4]`, true, ""}, {"minit", `[1,2]`, false, ""}, {"minit", `[1]`, false, ""}, {"minit", `[1,2,3,4,5]`, false, ""}, {"minit", `[]`, false, ""},
+	{"len2", `"abcd"`, true, ""}, {"len2", `"abcdef"`, true, ""}, {"len2", `"abc"`, false, ""}, {"len2", `"ab"`, false, ""}, {"len2", `"abcdefg"`, false, ""},
+	{"props2", `{"a":1,"b":2}`, true, ""}, {"props2", `{"a":1,"b":2,"c":3}`, true, ""}, {"props2", `{"a":1}`, false, ""}, {"props2", `{"a":1,"b":2,"c":3,"d":4}`, false, ""}, {"props2", `{}`, false, ""},
+	{"maxp", `{"a":1,"x":2}`, true, ""}, {"maxp", `{"x":1,"y":2}`, true, ""}, {"maxp", `{"a":1,"x":1,"y":2}`, false, ""}, {"maxp", `{"x":1,"y":2,"z":3}`, false, ""},
+	{"maxp1", `{"a":1,"b":2}`, true, ""}, {"maxp1", `{"a":1,"x":2,"y":3}`, true, ""}, {"maxp1", `{"a":1}`, false, ""}, {"maxp1", `{"a":1,"b":2,"x":3,"y":4}`, false, ""},
+	{"emoji", `{"lo":"\ud83d\ude00\ud83d\ude00\ud83d\ude00\ud83d\ude00"}`, true, ""}, {"emoji", `{"lo":"\ud83d\ude00\ud83d\ude00\ud83d\ude00"}`, false, ""}, {"emoji", `{"hi":"\ud83d\ude00\ud83d\ude00"}`, true, ""}, {"emoji", `{"hi":"\ud83d\ude00\ud83d\ude00\ud83d\ude00"}`, false, ""}, {"emoji", `{"lo":"\u00e9\u00e9\u00e9"}`, false, ""},
 	{"both", `{"meow":"m"}`, true, ""}, {"both", `{"bark":"b"}`, true, ""}, {"both", `{"meow":"m","bark":"b"}`, false, ""}, {"both", `{}`, false, ""}, {"both", `{"purr":1}`, false, ""},
 	{"zero", `{}`, true, ""}, {"zero", `{"s":"","a":[],"m":{}}`, true, ""}, {"zero", `{"s":"x"}`, false, ""}, {"zero", `{"a":[1]}`, false, ""}, {"zero", `{"m":{"k":1}}`, false, ""},
 }
